@@ -225,7 +225,7 @@ func (e *Engine) appendModel(fr *Frame, st *State, s T, tv Val, sT, tT types.Typ
 		e.assume(st, T{fmt.Sprintf("(forall ((i Int)) (! (=> (and (<= 0 i) (< i %s)) (= (select %s i) (select (select %s %s) (+ %s i)))) :pattern ((select %s i))))", n1.S, arr.S, h.S, sb.S, so.S, arr.S), sBool})
 		inpl := tStore(h, sb, tStore(tSel(h, sb), T{fmt.Sprintf("(+ %s %s)", so.S, n1.S), sInt}, x))
 		grown := tStore(h, nb, tStore(arr, n1, x))
-		e.recStore(st, hn, sb)
+		e.recStoreIf(st, hn, sb, inplace)
 		e.recStore(st, hn, nb)
 		e.setHeap(st, hn, tIte(inplace, inpl, grown))
 		return res
@@ -239,7 +239,7 @@ func (e *Engine) appendModel(fr *Frame, st *State, s T, tv Val, sT, tT types.Typ
 	e.assume(st, T{fmt.Sprintf("(forall ((i Int)) (! (=> (not (and (<= (+ %s %s) i) (< i (+ %s %s)))) (= (select %s i) (select (select %s %s) i))) :pattern ((select %s i))))", so.S, n1.S, so.S, total.S, arr2.S, h.S, sb.S, arr2.S), sBool})
 	e.assume(st, T{fmt.Sprintf("(forall ((j Int)) (! (=> (and (<= 0 j) (< j %s)) (= (select %s (+ %s %s j)) (select (select %s %s) (+ %s j)))) :pattern ((select %s (+ %s %s j)))))", n2.S, arr2.S, so.S, n1.S, h.S, tb.S, to.S, arr2.S, so.S, n1.S), sBool})
 	nh := tIte(T{fmt.Sprintf("(= %s 0)", n2.S), sBool}, h, tIte(inplace, tStore(h, sb, arr2), tStore(h, nb, arr)))
-	e.recStore(st, hn, sb)
+	e.recStoreIf(st, hn, sb, inplace)
 	e.recStore(st, hn, nb)
 	e.setHeap(st, hn, nh)
 	return res
@@ -574,7 +574,11 @@ func init() {
 			a, b := args[0].(T), args[1].(T)
 			return e.name(T{fmt.Sprintf("(ite (= %s %s) 0 (ite (str.< %s %s) (- 1) 1))", a.S, b.S, a.S, b.S), sInt}, "cmp")
 		},
-		"strings.EqualFold": nil,
+		"strings.EqualFold":       nil,
+		"slices.BinarySearchFunc": modelBinarySearchFunc,
+		"slices.IndexFunc":        modelIndexFunc,
+		"slices.ContainsFunc":     modelContainsFunc,
+		"reflect.TypeOf":          modelReflectTypeOf,
 	}
 	for k, v := range models {
 		if v == nil {
@@ -798,4 +802,103 @@ func modelOpaqueString(e *Engine, fr *Frame, st *State, fn *ssa.Function, args [
 
 func modelTimeNow(e *Engine, fr *Frame, st *State, fn *ssa.Function, args []Val, pos token.Pos) Val {
 	return e.freshOfType(st, fn.Signature.Results().At(0).Type(), "now")
+}
+
+// quantInt builds (forall ((i Int)) body(i)) where body is evaluated by the engine with i bound.
+func (e *Engine) quantInt(st *State, q string, body func(s *State, i T) T) T {
+	e.nfresh++
+	bv := T{fmt.Sprintf("q%d", e.nfresh), sInt}
+	e.inlineTerms++
+	e.noOblig++
+	b := body(st.clone(), bv)
+	e.noOblig--
+	e.inlineTerms--
+	res := fmt.Sprintf("(%s ((%s Int)) %s)", q, bv.S, b.S)
+	vars := shiftedVariants(b.S, bv.S, func() string { e.nfresh++; return fmt.Sprintf("k%d", e.nfresh) })
+	if len(vars) > 0 {
+		parts := []string{res}
+		for _, v := range vars {
+			parts = append(parts, fmt.Sprintf("(%s ((%s Int)) %s)", q, v.Var, v.Body))
+		}
+		op := "and"
+		if q == "exists" {
+			op = "or"
+		}
+		res = "(" + op + " " + strings.Join(parts, " ") + ")"
+	}
+	return T{res, sBool}
+}
+
+func sliceElemType(t types.Type) types.Type {
+	return t.Underlying().(*types.Slice).Elem()
+}
+
+// elemAt reads s[i] (no bounds obligation).
+func (e *Engine) elemAt(st *State, s T, i T, et types.Type) T {
+	return e.loadElem(st, T{app("sbase", s), sRef}, T{fmt.Sprintf("(+ (soff %s) %s)", s.S, i.S), sInt}, et)
+}
+
+func inRange(i T, s T) T {
+	return T{fmt.Sprintf("(and (<= 0 %s) (< %s (slen %s)))", i.S, i.S, s.S), sBool}
+}
+
+// slices.BinarySearchFunc(x, target, cmp): assumed to be called on input sorted w.r.t. cmp.
+func modelBinarySearchFunc(e *Engine, fr *Frame, st *State, fn *ssa.Function, args []Val, pos token.Pos) Val {
+	e.trust("slices.BinarySearchFunc: the slice is sorted with respect to cmp (then found <=> some element compares equal, and the index is the insertion point)")
+	x := args[0].(T)
+	et := sliceElemType(fn.Signature.Params().At(0).Type())
+	sig := fn.Signature.Params().At(2).Type().Underlying().(*types.Signature)
+	idx := e.fresh(sInt, "bs_idx")
+	found := e.fresh(sBool, "bs_found")
+	cmp := func(s *State, i T) T {
+		return e.callValue(fr, s, args[2], []Val{e.elemAt(s, x, i, et), args[1]}, sig, pos).(T)
+	}
+	e.assume(st, T{fmt.Sprintf("(and (<= 0 %s) (<= %s (slen %s)))", idx.S, idx.S, x.S), sBool})
+	e.noOblig++
+	at := cmp(st.clone(), idx)
+	e.noOblig--
+	e.assume(st, tImp(found, tAnd(T{fmt.Sprintf("(< %s (slen %s))", idx.S, x.S), sBool}, T{fmt.Sprintf("(= %s 0)", at.S), sBool})))
+	e.assume(st, tImp(tNot(found), e.quantInt(st, "forall", func(s *State, i T) T {
+		return tImp(inRange(i, x), T{fmt.Sprintf("(not (= %s 0))", cmp(s, i).S), sBool})
+	})))
+	e.assume(st, e.quantInt(st, "forall", func(s *State, i T) T {
+		c := cmp(s, i)
+		return tImp(inRange(i, x), T{fmt.Sprintf("(ite (< %s %s) (< %s 0) (>= %s 0))", i.S, idx.S, c.S, c.S), sBool})
+	}))
+	return Tuple{idx, found}
+}
+
+func modelIndexFunc(e *Engine, fr *Frame, st *State, fn *ssa.Function, args []Val, pos token.Pos) Val {
+	x := args[0].(T)
+	et := sliceElemType(fn.Signature.Params().At(0).Type())
+	sig := fn.Signature.Params().At(1).Type().Underlying().(*types.Signature)
+	r := e.fresh(sInt, "idx")
+	f := func(s *State, i T) T {
+		return e.callValue(fr, s, args[1], []Val{e.elemAt(s, x, i, et)}, sig, pos).(T)
+	}
+	e.assume(st, T{fmt.Sprintf("(and (<= (- 1) %s) (< %s (slen %s)))", r.S, r.S, x.S), sBool})
+	e.noOblig++
+	at := f(st.clone(), r)
+	e.noOblig--
+	e.assume(st, tImp(T{fmt.Sprintf("(>= %s 0)", r.S), sBool}, at))
+	e.assume(st, e.quantInt(st, "forall", func(s *State, i T) T {
+		return tImp(tAnd(inRange(i, x), T{fmt.Sprintf("(or (= %s (- 1)) (< %s %s))", r.S, i.S, r.S), sBool}), tNot(f(s, i)))
+	}))
+	return r
+}
+
+func modelContainsFunc(e *Engine, fr *Frame, st *State, fn *ssa.Function, args []Val, pos token.Pos) Val {
+	x := args[0].(T)
+	et := sliceElemType(fn.Signature.Params().At(0).Type())
+	sig := fn.Signature.Params().At(1).Type().Underlying().(*types.Signature)
+	f := func(s *State, i T) T {
+		return e.callValue(fr, s, args[1], []Val{e.elemAt(s, x, i, et)}, sig, pos).(T)
+	}
+	return e.name(e.quantInt(st, "exists", func(s *State, i T) T { return tAnd(inRange(i, x), f(s, i)) }), "contains")
+}
+
+// reflect.TypeOf(x): an interface value identifying the dynamic type of x (nil for nil).
+func modelReflectTypeOf(e *Engine, fr *Frame, st *State, fn *ssa.Function, args []Val, pos token.Pos) Val {
+	x := args[0].(T)
+	return e.name(tIte(tEq(x, tIfNil), tIfNil, T{fmt.Sprintf("(if_int %d (dtyp %s))", e.pseudoTypeID("*reflect.rtype"), x.S), sIface}), "rtype")
 }
